@@ -231,13 +231,21 @@ class Part:
     kind 'hyp'  : strategy(tier) -> Hypothesis strategy of cases; budget n cases per shard
     kind 'enum' : enum(tier, shard, nshards, rng) -> iterator of cases (complete enumeration or constructed list)
     kind 'bulk' : bulk(tier, shard, nshards, rec, rng) -> None | (case, msg); does its own counting via rec.bulk
-    kind 'machine': machine(tier) -> RuleBasedStateMachine class; the machine raises Violation itself and
-                    records through the module-level recorder given by set_machine_recorder
+    kind 'machine': stateful / model-based. driver = class with op_<name>(**kwargs) methods (raise Violation),
+                    check_invariants() (called after every step), finish(rec) (classify the finished history:
+                    rec.cls / rec.nt) and optional close(); rules = {name: {arg: strategy}} or
+                    {name: ({arg: strategy}, precondition(driver) -> bool)}. core builds a Hypothesis
+                    RuleBasedStateMachine from it; a history [(op, kwargs), ...] is the case / replay unit.
     """
 
-    def __init__(self, name, check=None, strategy=None, enum=None, bulk=None, machine=None,
+    def __init__(self, name, check=None, strategy=None, enum=None, bulk=None, driver=None, rules=None,
                  quick=(1, 100), thorough=(16, 1000), exhaustive=False, steps=(20, 50)):
         self.name = name
+        self.driver = driver
+        self.rules = rules
+        machine = driver
+        if driver is not None and check is None:
+            check = self._replay_history
         self.check = check
         self.strategy = strategy
         self.enum = enum
@@ -250,6 +258,18 @@ class Part:
     @property
     def kind(self):
         return "hyp" if self.strategy else "enum" if self.enum else "bulk" if self.bulk else "machine"
+
+    def _replay_history(self, history, rec):
+        """check() of a stateful part: re-apply a recorded history [(op, kwargs), ...] to a fresh driver."""
+        d = self.driver()
+        try:
+            for name, kw in history:
+                getattr(d, "op_" + name)(**kw)
+                d.check_invariants()
+        finally:
+            if hasattr(d, "close"):
+                d.close()
+        d.finish(rec)
 
 
 def _run_case(part, case, rec):
@@ -338,36 +358,68 @@ def _run_hyp(part, tier, n, seed, rec):
     return None
 
 
-_MACHINE_REC = None
-
-
-def machine_recorder():
-    return _MACHINE_REC
-
-
 def _run_machine(part, tier, n, seed, rec):
-    """Stateful parts: the machine class records its own history in self.history (list of JSON-able steps)
-    and raises Violation from rules/invariants. part.check(history, rec) must replay a history."""
-    global _MACHINE_REC
     import hypothesis
-    from hypothesis.stateful import run_state_machine_as_test
+    from hypothesis.stateful import RuleBasedStateMachine, precondition, rule, run_state_machine_as_test
 
-    _MACHINE_REC = rec
-    cls = part.machine(tier)
     last = {}
-    cls._on_violation = staticmethod(lambda hist, msg: last.update(case=list(hist), msg=msg))
+
+    class M(RuleBasedStateMachine):
+        def __init__(self):
+            super().__init__()
+            self.d = part.driver()
+            self.hist = []
+            self.dead = False
+
+        def teardown(self):
+            try:
+                if hasattr(self.d, "close"):
+                    self.d.close()
+            finally:
+                rec.begin(part.name, self.hist)
+                rec.cls("machine.steps", len(self.hist))
+                if not self.dead:
+                    try:
+                        self.d.finish(rec)
+                    except Exception:
+                        raise HarnessError("machine part %s finish(): %s" % (part.name, traceback.format_exc()))
+
+    def mk(name, argstrats, pre):
+        def r(self, **kw):
+            if self.dead:
+                return
+            self.hist.append((name, kw))
+            try:
+                getattr(self.d, "op_" + name)(**kw)
+                self.d.check_invariants()
+            except Known as k:
+                rec.hit_known(k)
+                self.dead = True
+            except Violation as v:
+                last.update(case=[(a, dict(b)) for a, b in self.hist], msg=str(v))
+                raise
+            except HarnessError:
+                raise
+            except Exception:
+                raise HarnessError("machine part %s op %s(%r): %s" % (part.name, name, kw, traceback.format_exc()))
+
+        r.__name__ = name
+        r = rule(**argstrats)(r)
+        if pre is not None:
+            r = precondition(lambda self: pre(self.d))(r)
+        return r
+
+    for name, spec in part.rules.items():
+        argstrats, pre = spec if isinstance(spec, tuple) else (spec, None)
+        setattr(M, name, mk(name, argstrats, pre))
+    M.__name__ = "Machine_" + part.name
     try:
         run_state_machine_as_test(
-            hypothesis.seed(seed)(cls),
+            hypothesis.seed(seed)(M),
             settings=_hyp_settings(n, tier, stateful_step_count=part.steps[tier]),
         )
     except Violation as v:
         return dict(part=part.name, case=enc(last.get("case", [])), msg=last.get("msg", str(v)))
-    except HarnessError:
-        raise
-    except Exception:
-        # Hypothesis wraps nothing; anything else escaping a machine is a harness problem
-        raise HarnessError("machine part %s: %s" % (part.name, traceback.format_exc()))
     return None
 
 
